@@ -214,6 +214,12 @@ def install():
             continue
         mod = importlib.import_module(m.name)
         MODULES[m.name] = mod
+        for tn, nt in (('bool_', _np.bool_), ('float64', _np.float64), ('int64', _np.int64), ('int32', _np.int32),
+                       ('float32', _np.float32)):
+            # numba type objects used as dtypes (x.astype(bool_)): the numpy dtype numba means
+            v = getattr(mod, tn, None)
+            if v is not None and type(v).__module__.startswith('numba'):
+                setattr(mod, tn, nt)
         if getattr(mod, 'np', None) is _np:
             mod.np = NPProxy(unify=True) if m.name == 'skglm.utils.prox_funcs' else proxy
     _installed = True
